@@ -330,6 +330,8 @@ def ctx(m, tid, who, op):
                 return "cxx:child-view-ignores-constraints"
             if any(c.endswith(":padded") for c in cons):
                 return "cxx:padded-array"
+    if "rust" in who and rustwl.greedy_struct_field_not_last(m, tid):
+        return "rust:derived-struct-with-unsized-root-payload-as-field"
     if "python" in who and rustwl.struct_tree_field(m, tid):
         return "python:derived-struct-as-field-type"
     if "python" in who and op == "parse":
